@@ -631,6 +631,6 @@ def run(tier, seed):
 MANIFEST = {
     "engine": "E",
     "technique": "exhaustive enumeration of a boundary-complete (file size x Range header x method x entry point) grid on the real web resource, compared with a strict RFC 7233 reference responder",
-    "text": "Every file size 0..40 (thorough 0..300) is combined with every header of a catalogue built around that size (all first/last/suffix positions over the boundary values, the complete square for small sizes, two-range lists, ~75 malformed or lenient forms, undecodable bytes, no header), as GET and HEAD, through the real FileDownloader.render and FileNodeHandler.render on a real TahoeLAFSRequest; the response bytes are parsed back and compared with the set of outcomes the statement/RFC allow. Complete for the grid, nothing sampled.",
+    "text": "Every file size 0..40 (thorough 0..300) is combined with every header of a catalogue built around that size (all first/last/suffix positions over the boundary values, the complete square for small sizes, two-range lists, ~75 malformed or lenient forms, undecodable bytes, no header), as GET and HEAD, through the real FileDownloader.render and FileNodeHandler.render on a real TahoeLAFSRequest; the response bytes are parsed back and compared with the set of outcomes the statement/RFC allow. Complete for the grid, nothing sampled. The real-node half adds a lattice of first/last positions over the whole file (steps coprime to the segment sizes) and a 300-byte CHK file.",
     "note": "Stub file node (read writes the slice): real literal/CHK/SDMF/MDMF nodes on a grid are not exercised here. Multi-range requests and lenient header forms accept every RFC-conformant alternative; '416 although a later listed range is satisfiable' is only counted. Trusted: the reference parser/responder in this module.",
 }
